@@ -5,12 +5,10 @@
 
     [f : fixes] selects the code: [fx_none] = the originally pinned tree,
     [fx1/fx2/fx3 f = true] = with the fix: commits 637ae67 (C10-F1), c971513
-    (C10-F2), e0dc5e2 (C10-F3), which /repo contains ([fx_repo]); [fx4], [fx5] = with
-    the candidate repairs of the open findings C10-F4 and C10-F5 (fixes/C10-F4.diff,
-    C10-F5.diff); [fx_all] = all five.  Theorems about repaired defects carry the
-    hypothesis [fx<n> f = true] and no guard; what the pinned code did instead is
-    kept as [C10_F<n>_pinned_refuted]; the open findings have a guard and a
-    [C10_F<n>_refuted] witness on [fx_repo]. *)
+    (C10-F2), e0dc5e2 (C10-F3), a3cbbb3 (C10-F4), 8647e06 (C10-F5); /repo contains all
+    five ([fx_all]); [fx_repo] = the tree before the last two.  Theorems about
+    repaired defects carry the hypothesis [fx<n> f = true] and no guard; what the
+    code did before is kept as [C10_F<n>_pinned_refuted]. *)
 From HV Require Import Base.Prelude Base.Time C10.Model C10.Proofs C10.Mixed Run.Eval_C10 C10.Sound C10.SoundHist.
 Open Scope Z_scope.
 
@@ -80,25 +78,21 @@ Print Assumptions C10_rule_level_ttl_bounds.
     freshness a response has left when it arrives: lifetime (max-age, else
     Expires - Date, unparsable Expires = expired, else the default ttl) minus
     current age (max of Age and now - Date).  What [cacheResponse] hands to the
-    cache is positive and within it -- outside the guard of the open finding
-    C10-F4 (the response aged on its way / unparsable Expires), which the repair
-    [fx4] closes *)
+    cache is positive and within it (repair of C10-F4, a3cbbb3: [fx4]) *)
 Theorem C10_http_within_rfc_freshness : forall f cachable h dflt now1 now2 ttl,
-  fx2 f = true -> now1 <= now2 -> 0 <= hv_age h ->
-  guard_F4 f h dflt now2 = false ->
+  fx2 f = true -> fx4 f = true -> now1 <= now2 -> 0 <= hv_age h ->
   http_store_hdr f cachable h dflt now1 now2 = Some ttl ->
   exists l, rfc_remaining h dflt now2 = Some l /\ 0 < ttl /\ ttl <= l.
-Proof. exact http_hdr_within_rfc. Qed.
+Proof. exact http_hdr_within_rfc_fixed. Qed.
 Print Assumptions C10_http_within_rfc_freshness.
 
 (** ... so a response whose remaining freshness is zero or negative is not handed
     to the cache at all, nor is one without any lifetime *)
 Theorem C10_http_not_stored_when_stale : forall f cachable h dflt now1 now2 l,
-  fx2 f = true -> now1 <= now2 -> 0 <= hv_age h ->
-  guard_F4 f h dflt now2 = false ->
+  fx2 f = true -> fx4 f = true -> now1 <= now2 -> 0 <= hv_age h ->
   rfc_remaining h dflt now2 = Some l -> l <= 0 ->
   http_store_hdr f cachable h dflt now1 now2 = None.
-Proof. exact http_hdr_not_stored_when_stale. Qed.
+Proof. exact http_hdr_not_stored_when_stale_fixed. Qed.
 Print Assumptions C10_http_not_stored_when_stale.
 
 Theorem C10_http_not_stored_without_lifetime : forall f cachable h dflt now1 now2,
@@ -107,21 +101,21 @@ Theorem C10_http_not_stored_without_lifetime : forall f cachable h dflt now1 now
 Proof. exact http_hdr_not_stored_without_lifetime. Qed.
 Print Assumptions C10_http_not_stored_without_lifetime.
 
-(** inside the guard of C10-F4 (and everywhere else) the code still respects the
-    lifetime the response declares, only not its age: the ttl is positive and at
-    most the declared lifetime / the default ttl *)
-Theorem C10_F4_inside_guard : forall f cachable h dflt now1 now2 ttl,
+(** also before the repair of C10-F4 the code respected the lifetime the response
+    declares, only not its age: the ttl is positive and at most the declared
+    lifetime / the default ttl *)
+Theorem C10_F4_pinned_bound : forall f cachable h dflt now1 now2 ttl,
   fx2 f = true -> now1 <= now2 ->
   http_store_decision f cachable (lib_expires h now1) dflt now1 now2 = Some ttl ->
   0 < ttl /\
   ((bad_expires h = true /\ ttl <= dflt /\ 0 < dflt) \/
    (bad_expires h = false /\ exists l, lifetime_or_default h dflt now2 = Some l /\ ttl <= l)).
 Proof. exact core_decision_bound. Qed.
-Print Assumptions C10_F4_inside_guard.
+Print Assumptions C10_F4_pinned_bound.
 
-(** C10-F4 (open) on /repo's code: `Age: 3599, max-age=3600` stored for the full
-    hour; `Expires: 0` + `default_ttl: 5s` stored for 5 s *)
-Theorem C10_F4_refuted :
+(** C10-F4 before a3cbbb3: `Age: 3599, max-age=3600` stored for the full hour;
+    `Expires: 0` + `default_ttl: 5s` stored for 5 s *)
+Theorem C10_F4_pinned_refuted :
   (guard_F4 fx_repo h_aged 0 (secs 1000) = true /\
    rfc_remaining h_aged 0 (secs 1000) = Some (secs 1) /\
    http_store_hdr fx_repo true h_aged 0 (secs 1000) (secs 1000) = Some (secs 3600)) /\
@@ -129,7 +123,7 @@ Theorem C10_F4_refuted :
    rfc_remaining h_badexp (secs 5) (secs 1000) = Some 0 /\
    http_store_hdr fx_repo true h_badexp (secs 5) (secs 1000) (secs 1000) = Some (secs 5)).
 Proof. exact F4_refuted. Qed.
-Print Assumptions C10_F4_refuted.
+Print Assumptions C10_F4_pinned_refuted.
 
 (** all request sequences over time, both cache semantics: whatever is served
     from cache is served strictly before its own expiry *)
@@ -157,7 +151,7 @@ Print Assumptions C10_no_hit_after_expiry_http.
 (** requests under DIFFERENT rules (different ttl states of one prototype) against
     one cache, all request sequences, both cache semantics:
     (i) whichever rule stored an entry, it is served strictly before the payload's
-    own expiry -- this holds inside the guard of C10-F5 too; *)
+    own expiry -- this held before the repair of C10-F5 too; *)
 Theorem C10_no_hit_after_expiry_any_rule : forall b f m h now cs,
   fx1 f = true -> expiry_mech m = true -> wf_mhist max_delay h ->
   minv (mech_lim m) cs ->
@@ -165,25 +159,25 @@ Theorem C10_no_hit_after_expiry_any_rule : forall b f m h now cs,
 Proof. exact no_hit_after_expiry_mixed. Qed.
 Print Assumptions C10_no_hit_after_expiry_any_rule.
 
-(** (ii) where the cache key contains the ttl (remote authorizer, contextualizer,
-    jwt finalizer; the authenticators and client credentials with the repair
-    [fx5]): what a request under a configured ttl [c] is answered with was fetched
-    by an earlier request under the same ttl, at most [c] ago -- "a configured
-    TTL can only shorten", per request *)
+(** (ii) the cache key contains the ttl (always for the remote authorizer, the
+    contextualizer and the jwt finalizer; for the authenticators and client
+    credentials since the repair of C10-F5, 8647e06: [fx5]): what a request under
+    a configured ttl [c] is answered with was fetched by an earlier request under
+    the same ttl, at most [c] ago -- "a configured TTL can only shorten", per request *)
 Theorem C10_hit_age_within_ttl_in_force : forall b f m,
-  key_has_ttl f m = true ->
+  fx5 f = true ->
   forall h now0 t c v,
     wf_mhist max_delay h ->
     In (MHit t (Some c) v) (runm b f m now0 [] h) ->
     exists tc ts ttl,
       In (MMiss tc ts (Some c) v (Some ttl)) (runm b f m now0 [] h) /\ ttl <= c /\ ts <= t /\ t <= ts + ttl.
-Proof. exact hit_age_within_ttl_in_force. Qed.
+Proof. exact hit_age_within_ttl_in_force_fixed. Qed.
 Print Assumptions C10_hit_age_within_ttl_in_force.
 
-(** C10-F5 (open) on /repo's code: the introspection authenticator's key has no
-    ttl; a request under `cache_ttl: 5s` is answered from the entry a request
-    under 1 h stored 100 s ago *)
-Theorem C10_F5_refuted :
+(** C10-F5 before 8647e06: the introspection authenticator's key had no ttl; a
+    request under `cache_ttl: 5s` was answered from the entry a request under 1 h
+    stored 100 s ago *)
+Theorem C10_F5_pinned_refuted :
   let fr := {| r_id := 7; r_exp := Some 9000 |} in
   let h := [MReq 1 (Some (secs 3600)) fr 0; MAdv (secs 100); MReq 1 (Some (secs 5)) {| r_id := 8; r_exp := Some 9000 |} 0] in
   guard_F5 fx_repo MIntro [Some (secs 3600); Some (secs 5)] = true /\
@@ -191,7 +185,7 @@ Theorem C10_F5_refuted :
   In (MHit (secs 1100) (Some (secs 5)) fr) (runm Mem fx_repo MIntro (secs 1000) [] h) /\
   ~ (exists tc ts ttl, In (MMiss tc ts (Some (secs 5)) fr (Some ttl)) (runm Mem fx_repo MIntro (secs 1000) [] h)).
 Proof. exact F5_refuted. Qed.
-Print Assumptions C10_F5_refuted.
+Print Assumptions C10_F5_pinned_refuted.
 
 (** ** what the originally pinned code did instead (fixed by 637ae67, c971513, e0dc5e2) *)
 
